@@ -1,23 +1,25 @@
 // ---- shim clientsess_env: Client::create_new_session's session construction (TRUSTED) ----
 pub use std::sync::Arc;
-pub struct PaddingFactory { pub ghost raw: Seq<u8> }
+// gen = identity of the allocation (Arc::ptr_eq compares it); raw = the scheme text
+pub struct PaddingFactory { pub ghost raw: Seq<u8>, pub ghost gen: int }
+#[verifier::external_body] pub fn vx_same_arc(a: &Arc<PaddingFactory>, b: &Arc<PaddingFactory>) -> (r: bool) ensures r == (a.gen == b.gen), r ==> **a == **b { unimplemented!() }
 pub struct DefaultCell { pub v: Arc<PaddingFactory> }       // the process-wide default scheme (PaddingFactory::default())
 pub struct Duration { pub s: u64 }
 impl Clone for Duration { fn clone(&self) -> (r: Self) ensures r == *self { Duration { s: self.s } } }
 impl Copy for Duration {}
 pub struct SessionPoolConfig { pub check_interval: Duration, pub idle_timeout: Duration, pub min_idle_sessions: usize }
 pub struct SessionHeartbeatConfig { pub interval: Duration, pub timeout: Duration }
-pub struct Client { pub password_hash: [u8; 32], pub padding: Arc<PaddingFactory>, pub pool_config: SessionPoolConfig, pub session_pool: Arc<PoolT> }
+pub struct Client { pub password_hash: [u8; 32], pub padding: Arc<PaddingFactory>, pub pool_config: SessionPoolConfig, pub session_pool: Arc<PoolT>, pub default_seen: Arc<PaddingFactory> }
 pub struct RdHalf; pub struct WrHalf { pub ghost preamble_scheme: Option<Seq<u8>> }
 #[verifier::external_body]
 pub fn send_authentication(w: &mut WrHalf, h: &[u8; 32], p: &Arc<PaddingFactory>) -> (r: Result<()>)
     ensures r is Ok ==> final(w).preamble_scheme == Some(p.raw)
 { unimplemented!() }
-pub struct Session { pub ghost scheme: Seq<u8>, pub ghost hb: Option<(u64, u64)> }
+pub struct Session { pub ghost scheme: Seq<u8>, pub ghost hb: Option<(u64, u64)>, pub ghost preamble: Option<Seq<u8>> }
 impl Session {
     #[verifier::external_body]
     pub fn new_client(r: RdHalf, w: WrHalf, padding: Arc<PaddingFactory>, hb: Option<SessionHeartbeatConfig>) -> (s: Session)
-        ensures s.scheme == padding.raw, s.hb == (match hb { Some(c) => Some((c.interval.s, c.timeout.s)), None => None::<(u64, u64)> })
+        ensures s.scheme == padding.raw, s.preamble == w.preamble_scheme, s.hb == (match hb { Some(c) => Some((c.interval.s, c.timeout.s)), None => None::<(u64, u64)> })
     { unimplemented!() }
 }
 
